@@ -10,7 +10,7 @@
    window_is_lastn and check_schedule_sound.  What stays outside Coq: that rex's own Python to_graph/apply_window/supergraph code establishes same_graph for EVERY record
    (it is validated, not proved), jit/XLA, floats off the lattice. *)
 From Coq Require Import List Arith ZArith Bool.
-From Rex Require Import KahnL AsyncModel2 AsyncStable ConflInv RexDet AsyncLaws AsyncLaws2 AsyncLaws3 AsyncLaws4 CompiledModel WindowSpec WindowPush RunnerSym CheckSym Dataflow Replay AsyncDataflow ReplayAsync ExportWindows ExportReplay BufferSufficient Capstone.
+From Rex Require Import KahnL AsyncModel2 AsyncStable ConflInv RexDet AsyncLaws AsyncLaws2 AsyncLaws3 AsyncLaws4 CompiledModel WindowSpec WindowPush RunnerSym CheckSym Dataflow Replay AsyncDataflow ReplayAsync ExportWindows ExportReplay BufferSufficient Capstone ToTimings ToTimingsLaws Capstone2.
 Open Scope Z_scope.
 
 (* uniqueness of solutions of the dataflow equations: two traces over the same windowed graph, step function and initial values agree wherever both are defined *)
@@ -138,3 +138,19 @@ Print Assumptions C01_capstone_hypotheses_satisfiable.
 Theorem C01_capstone_instance : forall x1 x2 : Z * Z, T_a exG exS 1%nat 2 = Some x1 -> Tc ex_I (2 :: 1 :: nil) 0 3 1%nat 2 = Some x2 -> x1 = x2.
 Proof. exact @ex_capstone. Qed.
 Print Assumptions C01_capstone_instance.
+
+(* CAPSTONE, one step further (C01 + C07 + C08): the schedule is what rex.utils.to_timings (model ToTimings.v) builds from the partitioner's monomorphism M; check_schedule is no longer a hypothesis but derived from the decidable partitioner contract check_mono (ToTimingsLaws.to_timings_valid). Remaining hypotheses: reach (any recorded prefix under any thread schedule), check_mono, extra_ok, sched_ok, ring sizes >= buffer_need, n <= nparts *)
+Theorem C01_compiled_replay_from_partitioner : forall (G : cfg) (s : state) (tmpl : list (nat * nat)) (M : list mentry) (ngen nparts sup : nat) (sizes : list Z) (n : nat), let I0 := export G s nil ngen nparts sup in let I := export G s (to_timings I0 tmpl M) ngen nparts sup in reach G s -> check_mono I0 tmpl M = true -> extra_ok I = true -> sched_ok I 0 n = true -> (forall c : nat, (c < length (i_conns I))%nat -> buffer_need I c <= size_of sizes (k_out (conn I c))) -> (n <= nparts)%nat -> forall (m : nat) (k : Z) (x1 x2 : Z * Z), T_a G s m k = Some x1 -> Tc I sizes 0 n m k = Some x2 -> x1 = x2.
+Proof. exact @compiled_replay_from_partitioner. Qed.
+Print Assumptions C01_compiled_replay_from_partitioner.
+
+(* non-vacuity: the monomorphism read back from the two-node example's schedule satisfies check_mono, to_timings rebuilds that schedule (slots_eqb) and the other hypotheses hold *)
+Theorem C01_compiled_replay_from_partitioner_hyps : check_mono ex_I0 ex_tmpl ex_M = true /\ length ex_M = 6%nat /\ (let I := export exG exS (to_timings ex_I0 ex_tmpl ex_M) 2 3 1 in extra_ok I = true /\ sched_ok I 0 3 = true /\ buffer_need I 0 = 2 /\ length (i_conns I) = 1%nat /\ slots_eqb (i_slots I) (i_slots ex_I) = true).
+Proof. exact @ex2_hyps. Qed.
+Print Assumptions C01_compiled_replay_from_partitioner_hyps.
+
+(* ... and the theorem instantiated on it *)
+Theorem C01_compiled_replay_from_partitioner_example : forall x1 x2 : Z * Z, T_a exG exS 1%nat 2 = Some x1 -> Tc (export exG exS (to_timings ex_I0 ex_tmpl ex_M) 2 3 1) (2 :: 1 :: nil) 0 3 1%nat 2 = Some x2 -> x1 = x2.
+Proof. exact @ex2_capstone. Qed.
+Print Assumptions C01_compiled_replay_from_partitioner_example.
+
